@@ -73,9 +73,13 @@ def run(chk):
     chk.rule("R4", "no kernel computes through a numeric type narrower than its own (e.g. an unqualified sqrt resolving to ::sqrt(double) in the long double instantiation)")
     chk.rule("R5", "kernels whose components contain no sum of terms of unknown sign have an a-priori forward error bound (<= 8 u) on arbitrary inputs; the others (inherent cancellation) are not decided")
     chk.rule("R3", "compound assignments of the tensor classes equal the corresponding pure operator")
+    chk.rule("R6", "component accessors (x, xy, ...), Mutable_<c>() references, Set_<c>(v) setters and the component-list constructors of the "
+                   "four tensor classes address the entry of the embedded 3x3 matrix / 3-vector that their name says (the symmetric "
+                   "aliases yx, zx, zy share the slots of xy, xz, yz); a setter changes nothing else")
     chk.assumptions += ["polynomial identity over Q implies exact agreement on integer-valued inputs (degree <= 3, no rounding below 2^53/products)",
                         "the few-ulp clause on non-integer inputs is decided only for kernels without cancellation (R5); for dot/cross/determinant/products it is input-dependent and NOT decided"]
     n = 0
+    n_acc = [0]
     errstats = {"decided": 0, "undecided": 0, "max_u": 0.0}
     for T in NUMERIC:
         F = facts.load(T, chk.tier)
@@ -145,6 +149,9 @@ def run(chk):
                         chk.violated(rule, inst, text + ("; e.g. at %s" % w if w else ""), loc, witness=w)
                 except ev.Inconclusive as x:
                     chk.inconclusive("R1", inst, str(x), loc)
+        for tn in tensors:
+            if tn in F.records:
+                n_acc[0] += component_access(chk, F, tn, SHAPES[F.records[tn]["template"]], T)
         # free operators
         for f in F.fns.values():
             if f.get("kind") != "function" or f.get("op") not in ("+", "-", "*", "/") or "body" not in f or len(f["params"]) != 2:
@@ -206,9 +213,100 @@ def run(chk):
     if not any(o["rule"] == "R4" for o in chk.obs):
         chk.holds("R4", "all kernels", "%d kernel overloads evaluated: none casts a computed value to a narrower numeric type" % n, "")
     chk.floor("kernel overloads (x3 numeric types)", n, 300)
+    chk.floor("component accessors/setters/constructors (x3)", n_acc[0], 200)
+    chk.coverage["component_access_members"] = n_acc[0]
     chk.coverage["kernel_overloads"] = n
     chk.coverage["forward_error_bound"] = errstats
     chk.holds("R5", "a-priori error bounds", "%d kernels without subtraction of rounded terms: relative error <= %s u on arbitrary (non-integer) inputs; %d kernels with possible cancellation (dot, cross, determinant, ...) not decided" % (errstats["decided"], errstats["max_u"], errstats["undecided"]), "")
+
+
+COMP = re.compile(r"^[xyz]{1,2}$")
+
+
+def entry(M, name):
+    """Entry of the embedded matrix/vector addressed by a component name."""
+    idx = ["xyz".index(c) for c in name]
+    return M[idx[0]] if M.shape[1] == 1 else M[idx[0], idx[1]]
+
+
+def component_access(chk, F, tn, sh, T):
+    """R6 for one tensor class. Returns the number of members examined."""
+    n = 0
+    rank = 1 if sh in ("planar", "vector") else 2
+    valid = lambda c: COMP.match(c) and len(c) == rank and not (sh == "planar" and "z" in c)   # noqa: E731
+    for f in F.methods(tn):
+        if "body" not in f:
+            continue
+        sn = f["sname"]
+        pts = F.param_types(f)
+        loc = short(f.get("def_loc", f["loc"]))
+        try:
+            conv = nf.Conv()
+            E = ev.Evaluator(F)
+            if f["kind"] == "method" and valid(sn) and not pts and f.get("const"):
+                n += 1
+                inst = "%s::%s()" % (tn, sn)
+                this = E.new_loc(E.symbolic(tn, "a"), "this")
+                got = conv(E.rv(E.call(f["id"], this, [])))
+                want = entry(TA.embed(sh, comps(conv, E.load(this))), sn)
+                (chk.holds if nf.equal(got, want) else chk.violated)("R6", inst, "returns %s, the %s entry is %s" % (got, sn, want), loc)
+            elif f["kind"] == "method" and sn.startswith("Mutable_") and valid(sn[8:]) and not pts:
+                n += 1
+                c = sn[8:]
+                inst = "%s::%s()" % (tn, sn)
+                this = E.new_loc(E.symbolic(tn, "a"), "this")
+                r = E.call(f["id"], this, [])
+                if not (isinstance(r, ev.LV) and r.loc == this.loc):
+                    chk.violated("R6", inst, "does not return a reference into the object", loc)
+                    continue
+                E.save(r, ("leaf", "NEW"))
+                M = TA.embed(sh, comps(conv, E.load(this)))
+                ok = nf.equal(entry(M, c), conv(("leaf", "NEW")))
+                (chk.holds if ok else chk.violated)("R6", inst, "the reference addresses the entry that reads %s afterwards" % entry(M, c), loc)
+            elif f["kind"] == "method" and sn.startswith("Set_") and valid(sn[4:]) and len(pts) == 1 and strip_cvref(pts[0]) in FLOATS:
+                n += 1
+                c = sn[4:]
+                inst = "%s::%s(v)" % (tn, sn)
+                this = E.new_loc(E.symbolic(tn, "a"), "this")
+                before = TA.embed(sh, comps(conv, E.load(this)))
+                E.call(f["id"], this, [("leaf", "v")])
+                after = TA.embed(sh, comps(conv, E.load(this)))
+                v = conv(("leaf", "v"))
+                i = ["xyz".index(ch) for ch in c]
+                probs = []
+                rows, cols = after.shape
+                for r_ in range(rows):
+                    for c_ in range(cols):
+                        hit = ([r_] == i) if cols == 1 else ([r_, c_] == i or (sh == "symdyad" and [c_, r_] == i))
+                        if cols == 1 and sh == "planar" and r_ == 2:
+                            continue
+                        want = v if hit else before[r_, c_]
+                        if not nf.equal(after[r_, c_], want):
+                            probs.append("entry %s%s becomes %s, expected %s" % ("xyz"[r_], "xyz"[c_] if cols == 3 else "", after[r_, c_], want))
+                if probs:
+                    chk.violated("R6", inst, "; ".join(probs[:3]), loc)
+                else:
+                    chk.holds("R6", inst, "sets entry %s and nothing else" % c, loc)
+            elif f["kind"] == "ctor" and pts and all(strip_cvref(p) in FLOATS for p in pts) and all(valid(p_["n"] or "") for p_ in f["params"]):
+                n += 1
+                inst = "%s(%s)" % (tn, ", ".join(p_["n"] for p_ in f["params"]))
+                this = E.new_loc(E.blank(tn), "this")
+                E.call(f["id"], this, [("leaf", "p_" + p_["n"]) for p_ in f["params"]])
+                M = TA.embed(sh, comps(conv, E.load(this)))
+                probs = []
+                for p_ in f["params"]:
+                    if not nf.equal(entry(M, p_["n"]), conv(("leaf", "p_" + p_["n"]))):
+                        probs.append("entry %s is %s, expected the argument named %s" % (p_["n"], entry(M, p_["n"]), p_["n"]))
+                if probs:
+                    chk.violated("R6", inst, "; ".join(probs[:3]), loc)
+                else:
+                    chk.holds("R6", inst, "each argument lands in the entry of its name", loc)
+        except ev.Inconclusive as x:
+            if str(x).startswith("bad array"):
+                chk.violated("R6", "%s::%s" % (tn, sn), "accesses its component array out of bounds: %s" % x, loc)
+            else:
+                chk.inconclusive("R6", "%s::%s" % (tn, sn), str(x), loc)
+    return n
 
 
 def note_error_bound(chk, inst, val, T, loc, stats):
